@@ -193,7 +193,7 @@ def _validate_edit(ck, traces, label):
             nfail += 1
             at_final = r["l"] > len(t["ev"])
             edits = [e["op"] for e in t["ev"][: len(t["ev"]) if at_final else r["l"]] if e["op"] in ("add", "remove", "modify", "define")]
-            key = {"clause": r["clause"], "route": "edited-registry" if t["kind"] == "custom" else "default-registry", "probe": r["probe"], "layer": r["layer"], "last_edit": edits[-1] if edits else "none"}
+            key = {"clause": r["clause"], "route": "edited-registry" if t["kind"] == "custom" else "default-registry", "probe": r["probe"], "layer": r["layer"], "last_edit": edits[-1] if edits else "none", "form": r.get("form", "Unit")}
             ck.violation(key, {"history": [_short_edit(e) for e in t["ev"]], "at": "final observation" if at_final else r["l"], "observed": r["observed"], "expected": r["expected"]}, case={"edit": [_strip_edit(e) for e in t["ev"]], "kind": t["kind"]})
     return nfail
 
@@ -218,7 +218,7 @@ def _edit(ck):
         hs += deeper
     hs.sort(key=lambda r: (r["kind"], json.dumps(r["h"], sort_keys=True)))
     model_classes = sorted({(c["layer"]) for r in hs for c in r["stale"]})
-    cases = [{"kind": r["kind"], "h": r["h"]} for r in hs]
+    cases = [{"kind": r["kind"], "h": r["h"], "tch": bool(r["tch"])} for r in hs]
     traces = ck.pmap("impl_c14", "observe_edit", cases, chunk_timeout=ck.q(600, 3000))
     bad = [t for t in traces if "_error" in t]
     if bad:
@@ -348,12 +348,19 @@ def run(ck):
 
     import concurrent.futures as cf
 
+    import os
+
+    only = set(filter(None, os.environ.get("VERIF_C14_PARTS", "").split(",")))  # development knob: cases,hist,edit (default: all)
     pa, pb, pc = _Part(ck), _Part(ck), _Part(ck)
     with cf.ThreadPoolExecutor(max_workers=3) as ex:
-        fa = ex.submit(_cases, pa, common, data, data_path)
-        fb = ex.submit(_hist, pb, common, data, data_path)
-        fc = ex.submit(_edit, pc)
-        for f in (fa, fb, fc):
+        fs = []
+        if not only or "cases" in only:
+            fs.append(ex.submit(_cases, pa, common, data, data_path))
+        if not only or "hist" in only:
+            fs.append(ex.submit(_hist, pb, common, data, data_path))
+        if not only or "edit" in only:
+            fs.append(ex.submit(_edit, pc))
+        for f in fs:
             f.result()
     for part in (pa, pb, pc):
         part.apply()
